@@ -40,9 +40,9 @@ LEVEL_NOTE = ("trusted: the hand transcription of the documentation into xpmc/x_
               "xpmc/x_c05_catalog.py / xpmc/hydro*.py, numpy.isfinite; assumed: restrictions the documentation does not state are not demanded; "
               "violating values other than the listed ones behave like them; in-domain absence of NaN is decided only on the lattice points "
               "and parameter vectors enumerated")
-BOUND = {"quick": "all catalogue words (depth <= 2); in-domain K=1 deviations of every hydro family, K=2 of the cheap non-hydro families "
-                  "(heat, Blake, burn-time; K=1 for the costlier ones) + default/geometry variants of all classes",
-         "thorough": "quick + in-domain K=2 deviations of the cheap hydro families, K=3 of the cheap non-hydro families"}
+BOUND = {"quick": "all catalogue words (depth <= 2); in-domain K=2 deviations of the cheap hydro families (K=1 of the costly ones), K=3 of the "
+                  "cheap non-hydro families (heat, Blake, burn-time; K=2 for the costlier ones) + default/geometry variants of all classes",
+         "thorough": "quick + in-domain K=3 deviations of the cheap hydro families, K=4 of the cheap non-hydro families (K=3 of the costlier ones)"}
 RULE = ("tasks = one per (restriction, class), per class with a geometry help string, per (domain restriction, class), per in-domain "
         "configuration; a case is one operation word; an evaluation is one public solver call; a word is non-trivial when the "
         "constructor/call under test was actually reached (the parameter exists on that class) and, for in-domain words, the call returned "
@@ -55,8 +55,9 @@ ASSUMPTIONS = [
     "in-domain lattices avoid r = 0 and the exact positions of discontinuities except through the straddling points of xpmc.hydro.sample_points",
 ]
 
-K = {"quick": 1, "thorough": 2}
-KX = {"quick": 2, "thorough": 3}        # the extra (non-hydro) closed-form families are cheap: one more deviation
+# the quick tier is what used to be the thorough one (25 s on 12 cores); the thorough tier goes one deviation further
+K = {"quick": 2, "thorough": 3}
+KX = {"quick": 3, "thorough": 4}        # the extra (non-hydro) closed-form families are cheap: one more deviation
 
 
 def preimport():
